@@ -29,6 +29,9 @@ type c09Input struct {
 	// UnitMS is the time unit of all the numbers above (0 = 1000 ms): 100 ms exercises fractional-second
 	// grids, 15 s ranges beyond the engine's instant-query lookback.
 	UnitMS int `json:"unit_ms,omitempty"`
+	// Limit is the entry limit of the request (0 = none given): it limits log results, never the samples of
+	// a metric query.
+	Limit int `json:"limit,omitempty"`
 }
 
 func (in c09Input) unit() int64 {
@@ -91,9 +94,10 @@ func c09Data(in c09Input, fn c09Fn) []mockq.Rec {
 			case "const":
 				v = "3"
 			case "bytes":
-				v = "2KB"
+				v = []string{"2KB", "1KiB", "512B", "3MB"}[s%4]
 			case "dur":
-				v = strconv.Itoa(s+1) + "m30s"
+				// whole and fractional seconds
+				v = strconv.Itoa(s+1) + "m30s" + []string{"", "250ms", "500ms", "1ms"}[s%4]
 			}
 			labels = append(labels, mockq.KV{K: "v", V: v})
 		}
@@ -140,7 +144,11 @@ func c09Check(r *vkit.Run, in c09Input) bool {
 	}
 	q := mockq.New(data)
 	q.TimeFilter = in.TimeFilter
-	res := evalEngine(q, expr.Text(), start, end, time.Duration(step))
+	limit := -1
+	if in.Limit != 0 {
+		limit = in.Limit
+	}
+	res := evalEngineLimit(nil, q, expr.Text(), start, end, time.Duration(step), limit)
 	r.Eval()
 	times := gridTimes(start, end, step)
 	r.Step(len(times))
@@ -277,6 +285,15 @@ func c09Run(r *vkit.Run) {
 									if c09Check(r, in) {
 										nontrivial = true
 									}
+									if tf && off == 0 && (start == 0 || start == 3) && (fi < 3 || rg == 2) {
+										for _, lim := range []int{1, 2} {
+											in.Limit = lim
+											if c09Check(r, in) {
+												nontrivial = true
+											}
+										}
+										in.Limit = 0
+									}
 									if r.WantSample() && len(d.a) == 3 && span == 8 && step == 2 && fi == 1 {
 										r.Sample(map[string]any{"input": in, "query": c09Expr(in, fn).Text()})
 									}
@@ -295,7 +312,7 @@ func c09Run(r *vkit.Run) {
 		}
 		r.State(fmt.Sprintf("%d:%v", di, d))
 	}
-	r.Note("bounds", fmt.Sprintf("sample sets: all subsets of {0..8}s of size <=%d (+ doubled-timestamp and second-series variants); ranges {1,2,4}s x offsets {0,1,3}s x starts 0..6 x spans 0..8 x steps {instant,1,2,3,5}s x storage time-filtering on/off for count/avg/last; a reduced grid (starts {0,3}, spans {0,4,8}, steps {instant,1,3}) for the other %d function variants; the three window-identifying functions again on grids in units of 100 ms and of 15 s", maxSize, len(c09Fns)-3))
+	r.Note("bounds", fmt.Sprintf("sample sets: all subsets of {0..8}s of size <=%d (+ doubled-timestamp and second-series variants); ranges {1,2,4}s x offsets {0,1,3}s x starts 0..6 x spans 0..8 x steps {instant,1,2,3,5}s x storage time-filtering on/off for count/avg/last; a reduced grid (starts {0,3}, spans {0,4,8}, steps {instant,1,3}) for the other %d function variants; the three window-identifying functions again on grids in units of 100 ms and of 15 s; request entry limits {none,1,2} (a metric query ignores them); unwrapped durations with fractional seconds, byte sizes in four units", maxSize, len(c09Fns)-3))
 }
 
 func c09Replay(r *vkit.Run, v vkit.Violation) *vkit.Violation {
